@@ -101,7 +101,20 @@ sensitivity)
   done | tee "$RES.tmp"
   rc=${PIPESTATUS[0]}
   grep -q MISSED "$RES.tmp" && rc=1
-  mv "$RES.tmp" "$RES"
+  # merge into the accumulated table (latest verdict per name wins)
+  python3 - "$RES" "$RES.tmp" <<'PY'
+import sys,re,os
+res,tmp=sys.argv[1:]
+d={}
+for f in (res,tmp):
+    if os.path.exists(f):
+        for l in open(f):
+            m=re.match(r'^(C\d+-\S+)\s',l)
+            if m: d[m.group(1)]=l.rstrip("\n")
+open(res+".new","w").write("\n".join(d[k] for k in sorted(d))+"\n")
+os.replace(res+".new",res)
+PY
+  rm -f "$RES.tmp"
   exit $rc;;
 *)
   echo "usage: selftest.sh regress [PROP] | determinism [PROPS...] | sensitivity [NAMES...]" >&2; exit 2;;
